@@ -140,6 +140,12 @@ func mergeAndValidateOIDCConfigs(cfg *configv1.Config) error {
 				f.Type = &configv1.Filter_Oidc{Oidc: oidc}
 			}
 
+			// A filter without any type (e.g. `"filters": [{}]`) has no OIDC settings to merge or
+			// default; leave it to the final ValidateAll, which rejects it as "type is required".
+			if f.GetOidc() == nil {
+				continue
+			}
+
 			if f.GetOidc().GetConfigurationUri() == "" {
 				if f.GetOidc().GetAuthorizationUri() == "" {
 					errs = append(errs, fmt.Errorf("%w: missing authorization URI in chain %q", ErrRequiredURL, fc.Name))
